@@ -1045,7 +1045,7 @@ def judge_C13_real(w):
         got = c13_real_run(w)
     except Exception as e:
         return {"signature": "exception:" + exc_signature(e), "detail": repr(e)}
-    if got != w["expect"]:
+    if got != [e for e in w["expect"]]:
         return {"signature": f"clean-stream-payloads-differ:{w['proto']}", "detail": f"readers={w['readers']} chunks={w['chunks']}: queue {got}, expected {w['expect']}"}
     return None
 
